@@ -30,6 +30,7 @@ type Engine struct {
 	closureAddrs map[closureKey]*Addr
 	measures  map[*loopInfo]*Term
 	topContract *Contract
+	topFrame    *Frame
 	inlineStack []*ssa.Function
 	inlineExternal map[string]bool
 	needStrEq bool
@@ -315,7 +316,27 @@ func (eng *Engine) implementsTerm(fc *FuncCtx, tag *Term, iface types.Type) *Ter
 	return And(Not(Eq(tag, IntLit64(0))), Or(append(alts, unknown)...))
 }
 
-func (eng *Engine) noteAlloc(fr *Frame, st *State, in ssa.Instruction, n *Term) {}
+// noteAlloc: every make([]T, n) executed by the function under contract (or inlined into it)
+// must satisfy the contract's allocbound clauses, with $n bound to the requested length.
+func (eng *Engine) noteAlloc(fr *Frame, st *State, in ssa.Instruction, n *Term) {
+	c := eng.topContract
+	if c == nil || len(c.allocs) == 0 {
+		return
+	}
+	fc := fr.fc
+	for i, cl := range c.allocs {
+		env := fr.newEnv(st, fc.entry)
+		env.vars["$n"] = envVar{n, types.Typ[types.Int]}
+		if !fr.isTop {
+			// names of the top-level function are not visible inside an inlined callee:
+			// evaluate against the top frame's parameters
+			env = eng.topFrame.newEnv(st, fc.entry)
+			env.vars["$n"] = envVar{n, types.Typ[types.Int]}
+		}
+		g := env.boolExpr(cl.expr)
+		fc.oblige(fc.site(fmt.Sprintf("%s#alloc.%d", fc.fn, i+1)), "alloc", cl.ids, st.pc, g, cl, "allocation bound: "+cl.text+fr.posOf(in))
+	}
+}
 
 func constBig(c *types.Const) (*big.Int, bool) {
 	v := constant.ToInt(c.Val())
